@@ -42,10 +42,16 @@ type G struct {
 	parked    string // gate name, "" while running or blocked elsewhere
 	ch        chan struct{}
 	done      bool
+	inc       int  // incarnation of the instance this goroutine belongs to
 	gateReads bool // park at every read of read-only transactions (C17)
 	nodeGates bool // park at every chain-database query
 	// per-goroutine storage-call counter for fault addressing
 	dbCalls int
+}
+
+// gone reports whether the goroutine belongs to a crashed incarnation.
+func (g *G) gone() bool {
+	return g.Inst != nil && (g.Inst.Dead || g.inc != g.Inst.Opens)
 }
 
 func (g *G) String() string {
@@ -158,6 +164,7 @@ func (s *Sched) register(id int64, role Role, inst *Instance, name string) *G {
 	s.order = append(s.order, g)
 	if inst != nil {
 		g.nodeGates = inst.W.NodeGates
+		g.inc = inst.Opens
 	}
 	return g
 }
@@ -222,7 +229,7 @@ func (s *Sched) Gate(point string) {
 		s.mu.Unlock()
 		return
 	}
-	if g.Inst != nil && g.Inst.Dead {
+	if g.gone() {
 		s.mu.Unlock()
 		<-s.dead
 		return
@@ -231,7 +238,7 @@ func (s *Sched) Gate(point string) {
 	s.GateHits[point]++
 	s.mu.Unlock()
 	<-g.ch
-	if g.Inst != nil && g.Inst.Dead {
+	if g.gone() {
 		<-s.dead
 	}
 }
@@ -255,7 +262,7 @@ func (a Action) String() string { return a.G.String() + "@" + a.G.parked + "/" +
 
 func (s *Sched) workerBlocked(inst *Instance) bool {
 	w := inst.workerG
-	return w != nil && !w.done && w.parked == "" && !inst.Dead
+	return w != nil && !w.done && w.parked == "" && !w.gone()
 }
 
 // Enabled lists the enabled actions in canonical order (creation order of the
@@ -265,7 +272,7 @@ func (s *Sched) Enabled() []Action {
 	defer s.mu.Unlock()
 	var out []Action
 	for _, g := range s.order {
-		if g.done || g.parked == "" || (g.Inst != nil && g.Inst.Dead) {
+		if g.done || g.parked == "" || g.gone() {
 			continue
 		}
 		switch g.parked {
@@ -460,8 +467,8 @@ func (s *Sched) ParkedSummary() []string {
 		} else if st == "" {
 			st = "blocked(not at a gate)"
 		}
-		if g.Inst != nil && g.Inst.Dead {
-			st += " [dead instance]"
+		if g.gone() {
+			continue
 		}
 		out = append(out, g.String()+": "+st)
 	}
@@ -496,5 +503,8 @@ func (s *Sched) ForgetInstance(inst *Instance) {
 	defer s.mu.Unlock()
 	if s.lockHolder != nil && s.lockHolder.Inst == inst {
 		s.lockHolder = nil
+	}
+	if s.starting == inst {
+		s.starting = nil
 	}
 }
